@@ -198,7 +198,18 @@ def mem_fusemax(ctx: Ctx) -> None:
     # peak model
     pk = repo.get(PEAK)
     pfl, pcfg = flow_of(repo, pk), cfg_of(pk)
-    loops = [n for n in pcfg.stmts(ast.For) if isinstance(n.stmt.iter, ast.Name) and n.stmt.iter.id == pk.params[0]]
+    def over_ops(it: ast.AST) -> bool:
+        """the parameter itself, or the parameter filtered by `is not None` only"""
+        if isinstance(it, ast.Name) and it.id == pk.params[0]:
+            return True
+        if isinstance(it, (ast.GeneratorExp, ast.ListComp)) and len(it.generators) == 1:
+            g_ = it.generators[0]
+            return isinstance(g_.iter, ast.Name) and g_.iter.id == pk.params[0] and isinstance(g_.target, ast.Name) and isinstance(it.elt, ast.Name) and it.elt.id == g_.target.id and all(unparse(c_) == f"{g_.target.id} is not None" for c_ in g_.ifs)
+        if isinstance(it, ast.Call) and isinstance(it.func, ast.Name) and it.func.id == "filter" and len(it.args) == 2 and isinstance(it.args[0], ast.Constant) and it.args[0].value is None:
+            return over_ops(it.args[1])
+        return False
+
+    loops = [n for n in pcfg.stmts(ast.For) if over_ops(n.stmt.iter)]
     ctx.need(len(loops) == 1, "peak_projected_mem: loop over the operations not found")
     L = loops[0]
     pv = L.stmt.target.id
